@@ -12,7 +12,7 @@ TYPES = ["", "", "", "INTEGER", "INTEGER", "INTEGER", "INT", "TEXT", "TEXT", "VA
          "BIGINT", "\"INTEGER\"", "[TEXT]", "CHARACTER(20)", "INTEGER", "TEXT", "BLOB", "REAL", "FLOAT", "DATETIME", "BOOLEAN", "INTEGER(8)", "INTEGER"]
 RARE_TYPES = ["DOUBLE PRECISION", "UNSIGNED BIG INT", "VARYING CHARACTER(255)"]
 COLLS = ["BINARY", "NOCASE", "RTRIM", "nocase", "rtrim", "binary", "NoCase", "Rtrim"]
-COLNAMES = ["a", "b", "c", "d", "e", "f", "g", "id", "name", "val", "x1", "y_2", "Key2", "\"quoted col\"", "[br col]", "`tick`", "\"select\"",
+COLNAMES = ["a", "b", "c", "d", "e", "f", "g", "id", "name", "val", "rowid", "Oid", "x1", "y_2", "Key2", "\"quoted col\"", "[br col]", "`tick`", "\"select\"",
             "\"a\"\"q\"", "k", "Z", "\"TEXT\"", "\"é\"", "col_é"]
 DEFAULTS = ["0", "1", "-1", "+2", "42", "'x'", "''", "'it''s'", "NULL", "0x1F", "123456789012", "-9223372036854775807", "'with space'", "7", "'d'"]
 CHECKS = ["x > 0", "length(x) < 10", "(x)", "x <> 'a'", "x > 0", "x + 1 > 2", "x < 100", "abs(x) > 1"]
